@@ -177,6 +177,8 @@ pub fn units(prop: &str, tier: Tier) -> Option<Vec<Unit>> {
                 v.push(class(&format!("k01-{}", kind.name()), &k, pick(3, 4)).kind(kind).alarm(alarm).unit());
             }
             v.push(e1("k01-by-reference-slice", format!("every K01 grammar with <= {} nodes that reads a token through any / select, rewritten to any_ref / select_ref", pick(3, 4)), en::by_ref_all(&k.upto(pick(3, 4)))).kind(KindId::Slice).alarm(alarm).unit());
+            // the primitive matchers over every container flavour accepted as a token set / token sequence
+            v.push(Unit::Custom { name: "primitive-seq-flavours".into(), run: Box::new(move |cx| eng_inputs::run("primitive-seq-flavours", tier, cx)) });
             // the option rule again, with the option driven as an iterable parser (IterParser for OrNot)
             v.push(e1("k01-option-as-iterator", format!("a.or_not() used through its IterParser impl (collect, count, unit parser, collect_exactly, foldl, foldr) for every K01 grammar a with <= {} nodes, and pairs of options / an option and a repetition chained with IterParser::then, each followed by a rest capture", pick(2, 3)), en::k01_opt_iter(pick(2, 3))).alarm(alarm).unit());
             if !q {
@@ -681,6 +683,7 @@ pub fn units(prop: &str, tier: Tier) -> Option<Vec<Unit>> {
                     // "no stack exhaustion": operator chains and nestings up to a million levels
                     v.push(rec_unit("rec-depth", tier));
                     v.push(e1("k02-iter-chains", "iterable parsers chained with IterParser::then (repeated / separated_by / or_not / into_iter links) x 7 sinks".into(), en::k02_chain(false)).alpha(&ABCOMMA, pick(4, 5)).probes(NOPROBE).alarm(alarm).unit());
+                    v.push(Unit::Custom { name: "primitive-seq-flavours+unbounded".into(), run: Box::new(move |cx| eng_inputs::run("primitive-seq-flavours+unbounded", tier, cx)) });
                     v.push(Unit::Custom { name: "pull-budgets".into(), run: Box::new(move |cx| eng_inputs::run("pull-budgets", tier, cx)) });
                     v.push(Unit::Custom { name: "text-totality".into(), run: Box::new(move |cx| eng_text::run_totality("text-totality", if tier == Tier::Quick { 4 } else { 5 }, cx)) });
                 }
